@@ -253,6 +253,115 @@ theorem processor_herald_after_input_keeps_old_input :
         none = .res ⟨1, 2, 0, 0, 0, some 0, .bs, 3, 2, 0, none⟩ := by
   decide
 
+/-! ### every query (`probs(precision)` and `samples`), and the code as it is without a hypothesis on the filter
+
+  `Processor.samples` builds a NEW `NoisySamplingSimulator` at every call and hands it the linear circuit (phase
+  noise of the last assignment), the stored photon filter, the current post-selection / heralds / detectors and
+  the provider (`(_source, _input_state)` for a Fock-state input, `source_distribution` for a distribution).  The
+  model's answer `.smp a` is that argument list; what the sampling simulator does with it is C09's.
+-/
+
+/-- EVERY query of the Processor machine — `probs(precision)` and `samples` — after any history answers what a
+fresh processor given the final configuration answers (model in which the automatic filter is not stored) -/
+theorem processor_any_query_eq_fresh (ops : List PrOp) (q : PrOp) (hq : q.isQuery = true)
+    (hc : (exec (stepPr false) initPr ops).inputCurrent) :
+    (stepPr false (exec (stepPr false) initPr ops) q).2 =
+      freshPrQ false (exec (stepPr false) initPr ops).config q := by
+  have hi := processor_inv_all_histories false ops
+  rw [queryPr_spec_stored false _ q hq hi hc, configStored_eq false _ hi (hi.noauto rfl)]
+  unfold freshPrQ
+  obtain ⟨c1, c2, c3⟩ := canonPr_state false (exec (stepPr false) initPr ops).config
+  have hj := processor_inv_all_histories false (canonPr (exec (stepPr false) initPr ops).config)
+  rw [queryPr_spec_stored false _ q hq hj c2, configStored_eq false _ hj c3, c1]
+
+/-- `samples` after any history (earlier `probs` / `samples` calls included) = fresh processor -/
+theorem processor_samples_eq_fresh (ops : List PrOp)
+    (hc : (exec (stepPr false) initPr ops).inputCurrent) :
+    (stepPr false (exec (stepPr false) initPr ops) .samples).2 =
+      freshPrQ false (exec (stepPr false) initPr ops).config .samples :=
+  processor_any_query_eq_fresh ops _ rfl hc
+
+/-- THE CODE AS IT IS (`stepPr true`), ALL histories with a current input, NO hypothesis on the filter: every
+query answers what a fresh processor answers when it is given the final configuration in which the photon
+filter is the STORED one (`Pr.configStored`: the value the user gave, or the automatic value an earlier query
+wrote).  This is the exact content of the open finding `processor-auto-filter-persists`: the stored filter is
+the ONLY thing that survives — components, heralds, post-selection, detectors, noise, input, precision are those
+of the final configuration.  (`processor_query_eq_fresh_partial` is the special case `auto = false`, where
+`configStored = config`.) -/
+theorem processor_query_eq_fresh_given_stored_filter (ops : List PrOp) (q : PrOp) (hq : q.isQuery = true)
+    (hc : (exec (stepPr true) initPr ops).inputCurrent) :
+    (stepPr true (exec (stepPr true) initPr ops) q).2 =
+      freshPrQ true (exec (stepPr true) initPr ops).configStored q := by
+  have hi := processor_inv_all_histories true ops
+  rw [queryPr_spec_stored true _ q hq hi hc]
+  unfold freshPrQ
+  obtain ⟨c1, c2, c3⟩ := canonPr_state true (exec (stepPr true) initPr ops).configStored
+  have hj := processor_inv_all_histories true (canonPr (exec (stepPr true) initPr ops).configStored)
+  rw [queryPr_spec_stored true _ q hq hj c2, configStored_eq true _ hj c3, c1]
+
+/-- closed form for the code as it is: a function of the final configuration and the stored filter -/
+theorem processor_query_closed_form_stored (ops : List PrOp) (q : PrOp) (hq : q.isQuery = true)
+    (hc : (exec (stepPr true) initPr ops).inputCurrent) :
+    (stepPr true (exec (stepPr true) initPr ops) q).2 =
+      specPrQ (exec (stepPr true) initPr ops).configStored q :=
+  queryPr_spec_stored true _ q hq (processor_inv_all_histories true ops) hc
+
+/-- two histories of the code as it is that end in the same configuration AND the same stored filter give the
+same answer to every query -/
+theorem processor_history_independent_given_stored_filter (h₁ h₂ : List PrOp) (q : PrOp) (hq : q.isQuery = true)
+    (c₁ : (exec (stepPr true) initPr h₁).inputCurrent) (c₂ : (exec (stepPr true) initPr h₂).inputCurrent)
+    (hc : (exec (stepPr true) initPr h₁).configStored = (exec (stepPr true) initPr h₂).configStored) :
+    (stepPr true (exec (stepPr true) initPr h₁) q).2 = (stepPr true (exec (stepPr true) initPr h₂) q).2 := by
+  rw [processor_query_eq_fresh_given_stored_filter _ _ hq c₁, processor_query_eq_fresh_given_stored_filter _ _ hq c₂, hc]
+
+/-- what persists, 1: once a filter is stored (by the user or by the automatic rule) no operation other than
+`min_detected_photons_filter(k)` changes it — whatever inputs, noise models, components, heralds and queries
+follow -/
+theorem processor_stored_filter_persists (s : Pr) (ops : List PrOp) (f : Nat) (hf : s.filt = some f)
+    (hno : ∀ op ∈ ops, op.setsFilter = false) :
+    (exec (stepPr true) s ops).filt = some f := by
+  induction ops generalizing s with
+  | nil => simpa [exec_nil] using hf
+  | cons op rest ih =>
+    rw [exec_cons]
+    exact ih _ (stored_filter_step s op f hf (hno op (by simp))) (fun o ho => hno o (by simp [ho]))
+
+/-- what persists, 2: the value.  The first query (`probs` or `samples`) answered for a Fock-state input on a
+perfect source while no filter is stored writes the photon number of that input on the modes of interest, and
+marks it as automatic -/
+theorem processor_first_query_stores_automatic_filter (s : Pr) (q : PrOp) (hq : q.isQuery = true) (i : PrIn)
+    (hi : s.input = some i) (hk : i.kind = .bs) (hp : s.source.2 = true) (hn : s.filt = none) :
+    (stepPr true s q).1.filt = some (i.n + i.nHer - s.nHer) ∧ (stepPr true s q).1.auto = true := by
+  cases q with
+  | probs prec => simp [stepPr, hi, effFilter, autoFilter, hn, hp, hk]
+  | samples => simp [stepPr, hi, effFilter, autoFilter, hn, hp, hk]
+  | _ => simp [PrOp.isQuery] at hq
+
+/-- non-vacuity of the two: a history in which the automatic value (2 photons) is stored by `samples`, survives a
+noise assignment, an added component and a smaller input, and is applied by the next `samples` and `probs` -/
+example : (exec (stepPr true) initPr [.addComp 1, .withInput .bs 3 2, .samples, .setNoise (2, false), .addComp 2,
+      .withInput .bs 4 1]).filt = some 2 ∧
+    (stepPr true (exec (stepPr true) initPr [.addComp 1, .withInput .bs 3 2, .samples, .setNoise (2, false),
+      .addComp 2, .withInput .bs 4 1]) .samples).2 = .smp ⟨2, 0, 0, 0, 2, some 2, .bs, 4, 0, 2, none⟩ ∧
+    freshPrQ true (exec (stepPr true) initPr [.addComp 1, .withInput .bs 3 2, .samples, .setNoise (2, false),
+      .addComp 2, .withInput .bs 4 1]).configStored .samples = .smp ⟨2, 0, 0, 0, 2, some 2, .bs, 4, 0, 2, none⟩ := by
+  decide
+
+/-- the open finding is reachable through `samples` as well: the automatic filter of a first `samples()`
+(2 photons) is applied to a later input with 1 photon, for which a fresh processor chooses 1 -/
+theorem processor_auto_filter_fails_on_current_code_samples :
+    (stepPr true (exec (stepPr true) initPr [.addComp 1, .withInput .bs 3 2, .samples, .withInput .bs 4 1])
+        .samples).2 = .smp ⟨1, 0, 0, 0, 0, some 0, .bs, 4, 0, 2, none⟩ ∧
+    freshPrQ true (exec (stepPr true) initPr [.addComp 1, .withInput .bs 3 2, .samples, .withInput .bs 4 1]).config
+        .samples = .smp ⟨1, 0, 0, 0, 0, some 0, .bs, 4, 0, 1, none⟩ := by
+  decide
+
+/-- `samples` keeps nothing of its own: it does not build or drop the kept simulator, and it reads the heralds and
+the post-selection of NOW (a `probs` simulator built earlier for other ones is irrelevant) -/
+example : (stepPr true (exec (stepPr true) initPr [.addComp 1, .setFilter 0, .withInput .bs 3 2, .probs (some 5),
+      .setPs 4]) .samples).2 = .smp ⟨1, 0, 4, 0, 0, some 0, .bs, 3, 0, 0, none⟩ := by
+  decide
+
 /-! ### a NoiseModel updated in place while the processor holds it
 
   `nm.set_value(…)` on the object last assigned to `processor.noise`: `processor.noise` shows the new values
@@ -438,13 +547,18 @@ theorem mps_cutoff_fails_on_current_code :
     `probability` / `prob_amplitude` for a vacuum input (no model step); the caller's heralds dict kept by
     reference;
   * `Processor.with_input(LogicalState)` (stores `input.n` as the filter when none is set — the mechanism of the
-    automatic filter), `with_polarized_input`, `samples`, `clear_input_and_circuit`, feed-forward (`FFSimulator`
+    automatic filter), `with_polarized_input`, `clear_input_and_circuit`, feed-forward (`FFSimulator`
     keeps a reference to the NoiseModel), the Loss / Delay / Polarization layers `SimulatorFactory` chooses;
   * a Fock-state input that was not given again after `add_herald` (`Pr.inputCurrent` is a hypothesis; the code
     then answers from the old merged input — `processor_herald_after_input_keeps_old_input`);
   * the automatic photon filter as the code stores it is modelled (`stepPr true`) and refuted
-    (`processor_auto_filter_fails_on_current_code`); the theorem without the hypothesis `auto = false` holds only
-    for `stepPr false`, a repair that does not exist in the tree.
+    (`processor_auto_filter_fails_on_current_code`, `…_samples`); for the code as it is the exact statement is
+    `processor_query_eq_fresh_given_stored_filter` (all histories: fresh processor given the STORED filter) with
+    `processor_stored_filter_persists` / `processor_first_query_stores_automatic_filter` (what is stored and for
+    how long); the statement for the user's configuration alone holds only for `stepPr false`, a repair that does
+    not exist in the tree;
+  * `Processor.samples`: the argument list handed to the new `NoisySamplingSimulator` is modelled (`.samples`);
+    the samples drawn from it are random (C09) and the sampling engine (Clifford & Clifford) is not modelled.
 -/
 
 end PM.C05
